@@ -221,7 +221,9 @@ class Polarization(BaseState):
                 self.state, jnp.array([[1 / jnp.sqrt(2)], [-1j / jnp.sqrt(2)]])
             ):
                 self.state = PolarizationLabel.L
-            self.expansion_level = ExpansionLevel.Label
+            # Only a recognised basis state can be represented by a label
+            if isinstance(self.state, PolarizationLabel):
+                self.expansion_level = ExpansionLevel.Label
 
     def extract(self, index: Union[int, Tuple[int, int]]) -> None:
         """
